@@ -88,6 +88,44 @@ def h_vertex_neighbors(h: int, w: int, y: int, x: int, tuple_form: bool) -> bool
     return sorted(got.data) == sorted(want)
 
 
+def h_accessor_history(h: int, w: int, y: int, x: int, order: int) -> bool:
+    """
+    the accessors of ONE frame object called one after the other with the same coordinates (both orders, twice, plus
+    all_edges / iteration in between) keep returning what the geometry says
+    pre: h >= 1 and w >= 1 and 0 <= y < h and 0 <= x < w and 0 <= order <= 2
+    post: _
+    """
+    f = _frame(h, w)
+    want_cell = sorted([("H", y, x), ("H", y + 1, x), ("V", y, x), ("V", y, x + 1)])
+    want_vertex = []
+    if y > 0:
+        want_vertex.append(("V", y - 1, x))
+    want_vertex.append(("V", y, x))
+    if x > 0:
+        want_vertex.append(("H", y, x - 1))
+    want_vertex.append(("H", y, x))
+    want_vertex = sorted(want_vertex)
+    for rnd in range(2):
+        if order == 0:
+            a = sorted(f.vertex_neighbors(y, x).data)
+            b = sorted(f.cell_neighbors(y, x).data)
+        elif order == 1:
+            b = sorted(f.cell_neighbors(y, x).data)
+            a = sorted(f.vertex_neighbors(y, x).data)
+        else:
+            b = sorted(f.cell_neighbors((y, x)).data)
+            f.cell_neighbors(y, x).data.append(None)       # a caller that extends what it was given
+            a = sorted(f.vertex_neighbors((y, x)).data)
+        if a != want_vertex or b != want_cell:
+            return False
+        if f[2 * y, 2 * x + 1] != ("H", y, x) or f[2 * y + 1, 2 * x] != ("V", y, x):
+            return False
+        d = f.dual()
+        if d.vertical is not f.horizontal or d.horizontal is not f.vertical:
+            return False
+    return True
+
+
 def h_dual(h: int, w: int) -> bool:
     """
     pre: h >= 0 and w >= 0
